@@ -25,6 +25,10 @@ func genSingleFault(r *rng, index int) *Spec {
 	if index%3 == 0 {
 		target = ha[0] // the master, most interesting
 	}
+	// an isolated master with clients on its side of the cut is where acknowledgements can go wrong
+	if (kind == "isolate_blackhole" || kind == "isolate_reject") && r.chance(0.5) {
+		target = ha[0]
+	}
 	// the master loses only its health record while every HA replica keeps streaming: a cascade
 	// replica must not change the outcome
 	if (kind == "kill_daemon" || kind == "stop_daemon" || kind == "cut_zk") && target == ha[0] && len(targets) == len(ha) && r.chance(0.7) {
